@@ -2,6 +2,7 @@ import IkeModel
 import DriverEap
 import DriverOps
 import DriverKeys
+import DriverReg
 
 /-! Model driver: one operation per input line, one result per output line
 (`ok <canonical value>` | `err` | `panic`).  Run by the Go harness, which
@@ -161,6 +162,7 @@ def handle (line : String) : String :=
     else if op == "cbc-decrypt" then cbcDecryptOp ts
     else if let some r := handleOps ts then r
     else if let some r := handleKeys ts then r
+    else if let some r := handleReg ts then r
     else "bad-op"
   else "bad-op"
 
